@@ -75,13 +75,13 @@ def kind_assignments(n, mode):
         yield base
     elif mode == 'full' and n <= 2:
         # small skeletons: also elements that carry text (an implicit element with text still nests its children)
-        alts = ('x%d', 'x%d/', '.c%d', 'x%d$', 'x%d{t}', '.c%d{t}')
+        alts = ('x%d', 'x%d/', '.c%d', 'x%d$', "x%d{it's}", '.c%d{t}')
         for combo in itertools.product(range(len(alts)), repeat=n):
             yield [alts[c] % i for i, c in enumerate(combo)]
     elif mode == 'dev1':
         yield base
         for i in range(n):
-            for alt in ('x%d/' % i, '.c%d' % i, 'x%d$' % i, 'x%d{t}' % i, '.c%d{t}' % i, '#i%d[a=b]{t}' % i):
+            for alt in ('x%d/' % i, '.c%d' % i, 'x%d$' % i, "x%d{it's}" % i, '.c%d{t "}' % i, '#i%d[a=b]{t}' % i):
                 l = list(base)
                 l[i] = alt
                 yield l
